@@ -84,12 +84,31 @@ def recursive(defs):
         if reach(start, set()): return True
     return False
 
+def mentions_pf(x):
+    if isinstance(x, dict):
+        return any(k in ("pattern", "format") or mentions_pf(v) for k, v in x.items())
+    if isinstance(x, list):
+        return any(mentions_pf(v) for v in x)
+    return False
+
+def jsv_row(sch, docs, masked):
+    """verdicts of python jsonschema, in the notation of the Lean evaluator's row (Driver/SchemaOps.lean jsvRows)"""
+    if sch is None or masked: return "-"
+    out = []
+    for doc in docs:
+        try:
+            out.append("t" if is_valid(sch, doc) else "f")
+        except Exception:
+            out.append("e")
+    return "".join(out)
+
 def main():
     for line in sys.stdin:
         line = line.strip()
         if not line: continue
         d = json.loads(line)
         bad = set()
+        jsv = '(jsv "-" "-")'
         try:
             tpl, key = d["tpl"], d["key"]
             req = d.get("req", "")
@@ -103,6 +122,8 @@ def main():
             ctx_root = root_schema(fresh0["schema"], fresh0["defs"], tpl, key) if fresh0["ok"] else None
             defs0 = flat_defs(fresh0["defs"], key)
             rec = recursive(defs0)
+            jsv = '(jsv %s %s)' % (json.dumps(jsv_row(flat, d["docs"], flat is not None and mentions_pf(flat))),
+                                   json.dumps(jsv_row(ctx_root, d["docs"], (not fresh0["ok"]) or mentions_pf(fresh0["schema"]) or mentions_pf(defs0))))
             for name, sch in (("flat", flat), ("ctx", ctx_root)):
                 if sch is None: continue
                 try:
@@ -166,7 +187,7 @@ def main():
                         if fresh[c["idx"]]["ok"] and fresh[c["idx"]]["schema"] != c["schema"]: bad.add("c16.schema-differs-from-fresh")
         except Exception as e:
             bad.add("oracle-error:" + type(e).__name__)
-        print("(oracle ok)" if not bad else "(oracle fail " + " ".join(sorted(bad)) + ")")
+        print(("(oracle ok)" if not bad else "(oracle fail " + " ".join(sorted(bad)) + ")") + "\t" + jsv)
         sys.stdout.flush()
 
 main()
